@@ -123,86 +123,100 @@ Definition obj_len (h : list obj) (i : nat) : res Z :=
 
 Definition is_singleton_err (k : pstr) : bool := str_eqb k eSingleton.
 
-(* cls(name, length, prefix, dtype) for a domain class.  Recursion
-   identifiers -> cls(cname) -> identifiers is by fuel (real depth <= 3).
-   `collect` after every nested call whose result is not kept. *)
+(* The three complement branches of DomainS.identifiers.  `rec st n l` is the nested
+   constructor call cls(n, length = l); `collect` after every nested call whose result
+   is not kept.  Returns the length that enters the canonical form. *)
+Definition dom_nested (rec : state -> pstr -> option Z -> state * cout)
+    (st : state) (nm : pstr) (len1 : option Z) : state * res (option Z) :=
+  let cn := cname_of nm in
+  match len1, starred nm with
+  | None, true =>
+      (* length = len(cls(cname, length = None)) ; except SingletonError: pass *)
+      let '(s1, r) := rec st cn None in
+      match r with
+      | CRet o _ =>
+          match obj_len (heap s1) o with
+          | Ok l => (collect s1, Ok (Some l))
+          | Err k => (collect s1, Err k)
+          end
+      | CErr k _ => if is_singleton_err k then (collect s1, Ok None) else (s1, Err k)
+      end
+  | Some l, false =>
+      if Z.eqb l 0 then (st, Ok len1) else
+      (* clength = len(cls(cname)); cls(cname, length = length) *)
+      let '(s1, r) := rec st cn None in
+      match r with
+      | CRet o _ =>
+          match obj_len (heap s1) o with
+          | Err k => (collect s1, Err k)
+          | Ok cl =>
+              let '(s2, r2) := rec (collect s1) cn (Some l) in
+              match r2 with
+              | CRet _ _ => (collect s2, Ok len1)
+              | CErr k _ =>
+                  if is_singleton_err k
+                  then (collect s2, if Z.eqb cl l then Ok len1 else Err eSingleton)
+                  else (s2, Err k)
+              end
+          end
+      | CErr k _ => if is_singleton_err k then (collect s1, Ok len1) else (s1, Err k)
+      end
+  | Some l, true =>
+      if Z.eqb l 0 then (st, Ok len1) else
+      (* try: clength = len(cls(cname)) except SingletonError: clength = length *)
+      let '(s1, r) := rec st cn None in
+      match r with
+      | CRet o _ =>
+          match obj_len (heap s1) o with
+          | Err k => (collect s1, Err k)
+          | Ok cl => (collect s1, if Z.eqb cl l then Ok len1 else Err eSingleton)
+          end
+      | CErr k _ => if is_singleton_err k then (collect s1, Ok len1) else (s1, Err k)
+      end
+  | None, false => (st, Ok None)
+  end.
+
+(* Singleton.__call__ after identifiers: look-up, then type.__call__ + registration *)
+Definition dom_finish (ct : ctable) (c : nat) (st1 : state) (auto : bool) (nm : pstr)
+    (len2 : option Z) : state * cout :=
+  match sing_lookup (cget st1 c) nm (option_map (KDom nm) len2) with
+  | LFound o => (st1, CRet o false)
+  | LRaise e => (st1, CErr eSingleton e)
+  | LFresh =>
+      match len2 with
+      | Some l => create ct st1 c auto nm (KDom nm l) [] [] (DDom l)
+      | None => (st1, CErr eBadRequest None)
+      end
+  end.
+
+Definition dom_body (rec : state -> pstr -> option Z -> state * cout)
+    (ct : ctable) (c : nat) (st : state)
+    (name : option pstr) (len : option Z) (prefix dtype : option pstr) : state * cout :=
+  match nth_error ct c with
+  | None => (st, CErr eBadRequest None)
+  | Some ci =>
+  match resolve_name ct st c ci name prefix with
+  | Err k => (st, CErr k None)
+  | Ok nm =>
+  match dom_len1 ci len dtype with
+  | Err k => (st, CErr k None)
+  | Ok len1 =>
+  if negb (nonempty nm) then (st, CErr eIndex None) else      (* name[-1] *)
+  let '(st1, rl) := dom_nested rec st nm len1 in
+  match rl with
+  | Err k => (st1, CErr k None)
+  | Ok len2 => dom_finish ct c st1 (is_none name) nm len2
+  end
+  end end end.
+
+(* cls(name, length, prefix, dtype) for a domain class.  The recursion
+   identifiers -> cls(cname) -> identifiers is by fuel (real depth <= 3). *)
 Fixpoint dom_call (fuel : nat) (ct : ctable) (c : nat) (st : state)
     (name : option pstr) (len : option Z) (prefix dtype : option pstr) : state * cout :=
   match fuel with
   | 0 => (st, CErr eFuel None)
   | S f =>
-    match nth_error ct c with
-    | None => (st, CErr eBadRequest None)
-    | Some ci =>
-    match resolve_name ct st c ci name prefix with
-    | Err k => (st, CErr k None)
-    | Ok nm =>
-    match dom_len1 ci len dtype with
-    | Err k => (st, CErr k None)
-    | Ok len1 =>
-    if negb (nonempty nm) then (st, CErr eIndex None) else      (* name[-1] *)
-    let cn := cname_of nm in
-    let '(st1, rl) :=
-      match len1, starred nm with
-      | None, true =>
-          (* length = len(cls(cname, length = None)) ; except SingletonError: pass *)
-          let '(s1, r) := dom_call f ct c st (Some cn) None None None in
-          match r with
-          | CRet o _ =>
-              match obj_len (heap s1) o with
-              | Ok l => (collect s1, Ok (Some l))
-              | Err k => (collect s1, Err k)
-              end
-          | CErr k _ => if is_singleton_err k then (collect s1, Ok None) else (s1, Err k)
-          end
-      | Some l, false =>
-          if Z.eqb l 0 then (st, Ok len1) else
-          (* clength = len(cls(cname)); cls(cname, length = length) *)
-          let '(s1, r) := dom_call f ct c st (Some cn) None None None in
-          match r with
-          | CRet o _ =>
-              match obj_len (heap s1) o with
-              | Err k => (collect s1, Err k)
-              | Ok cl =>
-                  let '(s2, r2) := dom_call f ct c (collect s1) (Some cn) (Some l) None None in
-                  match r2 with
-                  | CRet _ _ => (collect s2, Ok len1)
-                  | CErr k _ =>
-                      if is_singleton_err k
-                      then (collect s2, if Z.eqb cl l then Ok len1 else Err eSingleton)
-                      else (s2, Err k)
-                  end
-              end
-          | CErr k _ => if is_singleton_err k then (collect s1, Ok len1) else (s1, Err k)
-          end
-      | Some l, true =>
-          if Z.eqb l 0 then (st, Ok len1) else
-          (* try: clength = len(cls(cname)) except SingletonError: clength = length *)
-          let '(s1, r) := dom_call f ct c st (Some cn) None None None in
-          match r with
-          | CRet o _ =>
-              match obj_len (heap s1) o with
-              | Err k => (collect s1, Err k)
-              | Ok cl => (collect s1, if Z.eqb cl l then Ok len1 else Err eSingleton)
-              end
-          | CErr k _ => if is_singleton_err k then (collect s1, Ok len1) else (s1, Err k)
-          end
-      | None, false => (st, Ok None)
-      end in
-    match rl with
-    | Err k => (st1, CErr k None)
-    | Ok len2 =>
-        match sing_lookup (cget st1 c) nm (option_map (KDom nm) len2) with
-        | LFound o => (st1, CRet o false)
-        | LRaise e => (st1, CErr eSingleton e)
-        | LFresh =>
-            match len2 with
-            | Some l => create ct st1 c (is_none name) nm (KDom nm l) [] [] (DDom l)
-            | None => (st1, CErr eBadRequest None)
-            end
-        end
-    end
-    end end end
+      dom_body (fun st' n l => dom_call f ct c st' (Some n) l None None) ct c st name len prefix dtype
   end.
 
 Definition dom_fuel := 8.
